@@ -60,7 +60,7 @@ def main():
                     print('skip seeded %s: patch does not apply to the current tree (written against an earlier commit)' % os.path.basename(dd))
                     continue
                 rc, last = run(prop, d)
-                ok = rc in (1, 2)
+                ok = (rc == meta['expect_exit']) if 'expect_exit' in meta else rc in (1, 2)
                 bad += 0 if ok else 1
                 wit = ''
                 if rc == 1 and 'replay=' in last:
